@@ -11,9 +11,11 @@ PROP = {
     "inject": dict(ENV_INJECT, **{"src/rtps/writer.rs": ["writer"], "src/structure/sequence_number.rs": ["seqnum"], "src/rtps/rtps_reader_proxy.rs": ["rproxy"]}),
     "shim_files": RTPS_SHIM_FILES,
     "cap": {"quick": 4, "thorough": 6},
+    # heap buffers up to 1 KiB keep their constants (Vec<Message>, reader proxies): without it the send path of the Writer object does not fit in 14 GB
+    "cbmc_args": ["--max-field-sensitivity-array-size", "1024"],
     "sn_window": {"quick": 4, "thorough": 5},
     "harnesses": [
-        H("c04_single_reader_send_guard", _wr, "Writer::send_cache_change driven directly on the real Writer (readers 1 and 2 matched): a sample written for one reader is transmitted only when the target proxy IS that reader (then to it alone, with the written bytes); nothing is sent for an unmatched target or another reader's proxy", "scenario chosen symbolically among 3", timeout=900),
+        H("c04_single_reader_send_guard", _wr, "Writer::send_cache_change driven directly on the real Writer (readers 1 and 2 matched; DATA/DATAFRAG builders replaced by recorders of the sample's SN): a sample written for one reader is transmitted only when the target proxy IS that reader (then to it alone); nothing is sent for an unmatched target or another reader's proxy", "scenario chosen symbolically among 3", timeout=900),
         H("c04_single_reader_sample", _wr, "real Writer, readers 1 and 2 matched: an ordinary sample reaches both with its bytes; a sample written for ONE reader (1, 2 or an unmatched one, chosen symbolically) through process_writer_command is never transmitted to anybody else, and every other matched reader gets a pending GAP for it", "2 readers, 2 samples", tier="thorough", timeout=2400),
         H("c02_rproxy_acknack_step", _rp, "(shared with C02) one ACKNACK from ANY valid reader-proxy state: every requested available SN becomes to-be-sent (will be answered), nothing acknowledged is resent, pending GAPs (single-reader / pre-match SNs) survive exactly while unacknowledged", "SNs 0..W+1, 4-bit bitmap"),
         H("c02_rproxy_bookkeeping_step", _rp, "(shared with C02) new sample -> to-be-sent for every reader; insert_pending_gap / set_pending_gap_up_to record the SNs a reader must be GAPped for", "SNs 1..W+1"),
